@@ -71,8 +71,8 @@ Record MInv (s : state) (m : mon) : Prop := mkMInv {
   r_ret : forall b, mem b (m_ret m) = true -> b < nb s /\ b_done (blds s b) = true;
   r_disposed : disposed s = true -> m_dispCalled m = true;
   r_dispret : m_dispRet m = true -> disposed s = true /\ active s = None;
-  r_watch : watcher s = m_watchOk m;
-  r_watchc : m_watchOk m = true -> m_watchCalled m = true;
+  r_watch : m_watchOk m = true -> watcher s = true;
+  r_watchc : watcher s = true -> m_watchCalled m = true;
   r_internal : forall t, t < nt s -> is_client (t_kind (thr s t)) = false -> watcher s = true;
   r_cancel : forall b, b < nb s -> b_cancel (blds s b) = true -> m_cancelCalled m = true;
   r_cancelk : forall t, t < nt s -> t_kind (thr s t) = KClient OpCancel -> m_cancelCalled m = true;
@@ -239,7 +239,8 @@ Lemma minv_ret : forall s m m' t v o,
   t_kind (thr s t) = KClient o -> phase_of (t_pc (thr s t)) = None ->
   m_ncalls m' = m_ncalls m -> m_next m' = m_next m -> m_run m' = m_run m -> m_loaded m' = m_loaded m ->
   m_load m' = m_load m -> m_end m' = m_end m -> m_edits m' = m_edits m ->
-  m_dispCalled m' = m_dispCalled m -> m_watchCalled m' = m_watchCalled m -> m_watchOk m' = m_watchOk m ->
+  m_dispCalled m' = m_dispCalled m -> m_watchCalled m' = m_watchCalled m ->
+  (m_watchOk m' = true -> m_watchOk m = true \/ watcher s = true) ->
   m_cancelCalled m' = m_cancelCalled m ->
   m_pend m' = remove_pend (t_cid (thr s t)) (m_pend m) ->
   (forall b, mem b (m_ret m) = true -> mem b (m_ret m') = true) ->
@@ -252,7 +253,7 @@ Proof.
   { intros b Ha. unfold owner_pc. upd_simpl.
     destruct (Nat.eqb_spec (b_owner (blds s b)) t) as [E|N]; auto.
     exfalso. eapply owner_not; eauto. }
-  constructor; upd_simpl; rewrite ?E1, ?E2, ?E3, ?E4, ?E5, ?E6, ?E7, ?E8, ?E9, ?E10, ?E11.
+  constructor; upd_simpl; rewrite ?E1, ?E2, ?E3, ?E4, ?E5, ?E6, ?E7, ?E8, ?E9, ?E11.
   - apply (r_ncalls _ _ M).
   - apply (r_edits _ _ M).
   - rewrite (r_next _ _ M). unfold next_of. simpl. destruct (active s) eqn:A; auto.
@@ -271,7 +272,7 @@ Proof.
   - intros b H. destruct (Hr2 b H) as [H1|H1]; auto. apply (r_ret _ _ M b H1).
   - apply (r_disposed _ _ M).
   - intros H. destruct (Hdr H) as [H1|H1]; auto. apply (r_dispret _ _ M H1).
-  - apply (r_watch _ _ M).
+  - intros H. destruct (E10 H) as [H1|H1]; auto. apply (r_watch _ _ M H1).
   - apply (r_watchc _ _ M).
   - intros t0 H0 H. destruct (Nat.eqb_spec t0 t) as [E|N]; simpl in H.
     + rewrite Kt in H. discriminate.
